@@ -1,9 +1,9 @@
 import Driver.Proto
-namespace Driver
+namespace Driver.C05
 open Scrapli
 
 /-- line-protocol handler for property C05 (arguments after the leading `c05` token) -/
 def handleC05 : List String → String
   | _ => "bad-op"
 
-end Driver
+end Driver.C05
